@@ -12,7 +12,7 @@ ENGINES = [
     {
         "name": "xh",
         "path": "/verif/xh",
-        "serves_properties": ["C15"],
+        "serves_properties": ["C14", "C15"],
         "kind_free_text": "CrossHair 0.0.110 (symbolic execution of Python with z3) over generated PEP-316 harness "
         "functions that call the real pure-Python kernels",
     },
@@ -159,6 +159,17 @@ CLAIMED["C15"] = _xh(
     "set-membership conditions).",
 )
 
+CLAIMED["C14"] = _xh(
+    "C14",
+    "CrossHair symbolic execution (z3) of PEP-316 conditions over the real stringify/numify mapper chain and InputFile "
+    "(demote -> stringify -> numify); 'Confirmed over all paths' per condition; counterexamples replayed in plain Python",
+    "bounded symbolic model checking, partial: None/bool/short strings, every integer (unbounded, plus the 32-digit band), "
+    "finite floats and both infinities, lists of <=2 values survive the write/read mapper chain with value and type; whole "
+    "forms of six kinds (bool, int, float incl. inf, string, choice, object uuid) keep data value and enabled state for all "
+    "2^5 optional/enabled/groupOptional switch combinations; disabling by None survives. Entity promotion, workspace "
+    "paths, drillhole-group data and range forms are outside the claim.",
+)
+
 _NOT_BUILT = "check not built yet (planned, see DESIGN.md section 5)"
 
 NOT_APPLICABLE = {
@@ -179,5 +190,4 @@ NOT_APPLICABLE = {
     "C20": "partner linkage is identity bookkeeping in metadata dictionaries persisted as JSON; configurations x "
     "histories over an object graph, no value-level kernel",
     "C06": _NOT_BUILT,
-    "C14": _NOT_BUILT,
 }
